@@ -828,9 +828,9 @@ func (w *World) nilTests(fn *ssa.Function, v ssa.Value) []errTest {
 			return
 		}
 		var other ssa.Value
-		if w.Resolve(b.X) == v || b.X == v {
+		if w.Resolve(b.X) == v || b.X == v || w.reachingStoreValue(b.X) == v {
 			other = b.Y
-		} else if w.Resolve(b.Y) == v || b.Y == v {
+		} else if w.Resolve(b.Y) == v || b.Y == v || w.reachingStoreValue(b.Y) == v {
 			other = b.X
 		} else {
 			return
@@ -1017,6 +1017,88 @@ func structFieldInit(a *ssa.Alloc, field int, at *ssa.UnOp) ssa.Value {
 	}
 	if n == 1 {
 		return val
+	}
+	return nil
+}
+
+// reachingStoreValue: x is a load of a local cell that is stored to several times (a named result that a deferred closure
+// reads, `err` reused for every step): if one store dominates the load and every path from any other store of the cell to the
+// load passes that store again, the load yields that store's value. The cell may be captured only by closures that run deferred
+// (at the exit, after every load in the body); any other escape gives nil (unknown).
+func (w *World) reachingStoreValue(x ssa.Value) ssa.Value {
+	ld, ok := x.(*ssa.UnOp)
+	if !ok || ld.Op != token.MUL {
+		return nil
+	}
+	a, ok := ld.X.(*ssa.Alloc)
+	if !ok || a.Referrers() == nil {
+		return nil
+	}
+	var stores []*ssa.Store
+	for _, ref := range *a.Referrers() {
+		switch y := ref.(type) {
+		case *ssa.Store:
+			if y.Addr != ssa.Value(a) {
+				return nil // the address itself is stored somewhere
+			}
+			stores = append(stores, y)
+		case *ssa.UnOp, *ssa.DebugRef:
+		case *ssa.MakeClosure:
+			// only closures that are deferred right away
+			if y.Referrers() == nil {
+				return nil
+			}
+			for _, cr := range *y.Referrers() {
+				if _, isDefer := cr.(*ssa.Defer); !isDefer {
+					if _, isDbg := cr.(*ssa.DebugRef); !isDbg {
+						return nil
+					}
+				}
+			}
+			// … and that only read the cell (a deferred closure that assigns a named result changes what is returned)
+			if cf, isFn := y.Fn.(*ssa.Function); isFn {
+				for bi, b := range y.Bindings {
+					if b != ssa.Value(a) || bi >= len(cf.FreeVars) || cf.FreeVars[bi].Referrers() == nil {
+						continue
+					}
+					for _, fr := range *cf.FreeVars[bi].Referrers() {
+						switch z := fr.(type) {
+						case *ssa.UnOp, *ssa.DebugRef:
+						case *ssa.Store:
+							if z.Addr == ssa.Value(cf.FreeVars[bi]) {
+								return nil
+							}
+						default:
+							return nil
+						}
+					}
+				}
+			} else {
+				return nil
+			}
+		default:
+			return nil
+		}
+	}
+	fn := ld.Parent()
+	for _, s := range stores {
+		if !instrDominates(s, ld) {
+			continue
+		}
+		last := true
+		for _, o := range stores {
+			if o == s {
+				continue
+			}
+			if (PathQuery{Fn: fn, Start: []ssa.Instruction{o}, Target: func(i ssa.Instruction) bool { return i == ssa.Instruction(ld) },
+				BlockInstr: func(i ssa.Instruction) bool { return i == ssa.Instruction(s) }}).Find().Found {
+				last = false
+				break
+			}
+		}
+		if last {
+			return w.Resolve(s.Val)
+		}
 	}
 	return nil
 }
